@@ -3,20 +3,26 @@ Model of `pylife.vmap.VMAPExport` / `VMAPImport` (property C20).  No Mathlib.
 
 HDF5 / h5py is "a store that returns what was written": a file is the record `File` below, a group that
 was created is there until it is deleted, a dataset holds exactly the rows written.  Values (`V`) are
-opaque cells (binary64 in the real file, written and read back bit for bit); the only operation the code
-applies to a value is the comparison `z[0] == z` that decides the dimension, hence `[BEq V]`.
+opaque cells (binary64 in the real file, written and read back bit for bit); the code applies two operations
+to a value: the comparison `z[0] == z` that decides the dimension of a mesh, and the "is it missing"
+test inside `groupby('node_id').first()` (first NON-NULL cell per column) - hence the class `Cell`.
 
 The model follows the code step by step, including the order of the checks, the groups that are created
-before a check fails, the roll-back (`del group[name]`) in the `except` branches and the exporter's sticky
-`_dimension`.  It models the code WITH the three repairs of `tools/fixes/C20-*.diff`
-(mixed element types are written; element nodal values are written grouped by element; the importer reads
-set names written by the exporter and two-column coordinates).
+before a check fails and the roll-back (`del group[name]`) in the `except` branches.  It models the code WITH
+the repairs of `tools/fixes/C20-*.diff`: mixed element types are written; element nodal values are written
+grouped by element; the importer reads set names written by the exporter and two-column coordinates;
+the dimension of a geometry is decided from its own frame (no `_dimension` carried from call to call);
+identifiers that do not fit the 32 bit integers of the format are refused.
 -/
 namespace PylifeVerif.Vmap
 
 inductive Err where
-  | key | exportErr | value | apiUse | typeErr
+  | key | exportErr | value | apiUse | typeErr | overflow
   deriving DecidableEq, Repr
+
+/-- What the code does with a cell: IEEE comparison and the missing-value test of pandas (`NaN`). -/
+class Cell (V : Type) extends BEq V where
+  isNull : V → Bool
 
 /-- One row of a mesh frame: the `(element_id, node_id)` index entry and the cells of all columns. -/
 structure Row (V : Type) where
@@ -24,12 +30,17 @@ structure Row (V : Type) where
   nid : Int
   vals : List V
 
-/-- A pandas mesh frame: column labels and rows in frame order. -/
+/-- A pandas mesh frame: column labels, the labels of the columns whose dtype HDF5 cannot store
+(`object`), and the rows in frame order. -/
 structure Frame (V : Type) where
   cols : List String
+  objCols : List String
   rows : List (Row V)
 
 def Row.key {V} (r : Row V) : Int × Int := (r.eid, r.nid)
+
+/-- The identifiers of the VMAP format are 32 bit integers. -/
+def fits32 (i : Int) : Bool := decide (-2147483648 ≤ i) && decide (i ≤ 2147483647)
 
 /-- Positions of the requested column labels (`mesh[column_names]`); `none` = a label is missing (KeyError). -/
 def colIdx (cols : List String) (names : List String) : Option (List Nat) :=
@@ -46,14 +57,23 @@ def insertU (a : Int) : List Int → List Int
 /-- Sorted distinct keys: the group keys of `DataFrame.groupby`. -/
 def sortU (l : List Int) : List Int := l.foldr insertU []
 
-/-- `groupby('node_id').first()`: the first row carrying node `n`. -/
-def firstRow {V} (rows : List (Row V)) (n : Int) : Option (Row V) := rows.find? (fun r => r.nid == n)
+/-- The rows of node `n`, in frame order (one `groupby('node_id')` group). -/
+def nodeRows {V} (rows : List (Row V)) (n : Int) : List (Row V) := rows.filter (fun r => r.nid == n)
 
-/-- The selected cells of the first row of node `n` (one row of `groupby('node_id').first()[names]`). -/
-def nodeValue {V} (rows : List (Row V)) (idx : List Nat) (n : Int) : List V :=
-  match firstRow rows n with
-  | some r => selRow idx r
-  | none => []
+/-- `GroupBy.first()` on one column of one group: the first cell that is not missing; when all are
+missing the result is missing (the group's first cell stands for it). -/
+def firstValid {V} [Cell V] (cells : List V) : Option V :=
+  match cells.find? (fun v => !Cell.isNull v) with
+  | some v => some v
+  | none => cells.head?
+
+/-- Column `i` of `groupby('node_id').first()` at node `n`. -/
+def nodeCell {V} [Cell V] (rows : List (Row V)) (n : Int) (i : Nat) : Option V :=
+  firstValid ((nodeRows rows n).filterMap (fun r => r.vals[i]?))
+
+/-- One row of `groupby('node_id').first()[names]`. -/
+def nodeValue {V} [Cell V] (rows : List (Row V)) (idx : List Nat) (n : Int) : List V :=
+  idx.filterMap (nodeCell rows n)
 
 /-- The rows of element `e`, in frame order (one `groupby('element_id')` group). -/
 def elemRows {V} (rows : List (Row V)) (e : Int) : List (Row V) := rows.filter (fun r => r.eid == e)
@@ -102,50 +122,66 @@ def elemType : Nat → Nat → Option Nat
   | 3, 4 => some 4 | 3, 10 => some 5 | 3, 6 => some 6 | 3, 15 => some 7 | 3, 8 => some 8 | 3, 20 => some 9
   | _, _ => none
 
-/-- `_create_points_datasets`: returns the new `_dimension` (it is assigned before the coordinate columns
-are looked up) and the points or an error. -/
-def buildPoints {V} [BEq V] (dim : Nat) (fr : Frame V) : Nat × Except Err (List Int × Nat × List (List V)) :=
-  let ids := sortU (fr.rows.map (·.nid))
-  let pts (idx : List Nat) := ids.map (nodeValue fr.rows idx)
+/-- The coordinate columns the exporter writes for a frame. -/
+def coordNames {V} (fr : Frame V) : List String :=
+  if fr.cols.contains "z" then ["x", "y", "z"] else ["x", "y"]
+
+/-- The node ids of a frame, ascending and distinct (the index of `groupby('node_id').first()`). -/
+def nodeIds {V} (fr : Frame V) : List Int := sortU (fr.rows.map (·.nid))
+
+/-- The element ids of a frame, ascending and distinct. -/
+def elemIds {V} (fr : Frame V) : List Int := sortU (fr.rows.map (·.eid))
+
+/-- The dimension of a mesh frame, decided from the frame alone: 3 when there is a `z` column whose values
+(one per node) are not all equal (`(z[0] == z).all()`, IEEE comparison), else 2. -/
+def ownDim {V} [Cell V] (fr : Frame V) : Nat :=
   if fr.cols.contains "z" then
     let iz := fr.cols.idxOf "z"
-    let zs := ids.filterMap (fun n => (firstRow fr.rows n).bind (fun r => r.vals[iz]?))
+    let zs := (nodeIds fr).filterMap (fun n => nodeCell fr.rows n iz)
     match zs with
-    | [] => (dim, .error .exportErr)          -- z[0] on an empty column: IndexError
-    | z0 :: _ =>
-      let dim' := if zs.all (fun z => z0 == z) then dim else 3
-      match colIdx fr.cols ["x", "y", "z"] with
-      | none => (dim', .error .exportErr)
-      | some idx => (dim', .ok (ids, 3, pts idx))
-  else
-    match colIdx fr.cols ["x", "y"] with
-    | none => (dim, .error .exportErr)
-    | some idx => (dim, .ok (ids, 2, pts idx))
+    | [] => 2
+    | z0 :: _ => if zs.all (fun z => z0 == z) then 2 else 3
+  else 2
+
+/-- `_create_points_datasets`: the point ids, the number of coordinate columns and the coordinates, or an
+error: a node id outside int32, `z[0]` of an empty `z` column (IndexError), a missing coordinate column
+(KeyError), a coordinate column HDF5 cannot store (TypeError). -/
+def buildPoints {V} [Cell V] (fr : Frame V) : Except Err (List Int × Nat × List (List V)) :=
+  let ids := nodeIds fr
+  if !(ids.all fits32) then .error .overflow else
+  if fr.cols.contains "z" && ids.isEmpty then .error .exportErr else
+  match colIdx fr.cols (coordNames fr) with
+  | none => .error .key
+  | some idx =>
+    if (coordNames fr).any (fun c => fr.objCols.contains c) then .error .typeErr
+    else .ok (ids, (coordNames fr).length, ids.map (nodeValue fr.rows idx))
 
 /-- Connectivity per element id ascending, nodes in frame order. -/
 def connectivity {V} (rows : List (Row V)) : List (Int × List Int) :=
   (sortU (rows.map (·.eid))).map (fun e => (e, (elemRows rows e).map (·.nid)))
 
-/-- `_create_elements_dataset`: an element whose (dimension, node count) is not in the table is a KeyError. -/
+/-- `_create_elements_dataset`: an element id outside int32 is refused; an element whose
+(dimension, node count) is not in the table is a KeyError. -/
 def buildElements {V} (dim : Nat) (fr : Frame V) : Except Err (List (Int × Nat × List Int)) :=
   let cs := connectivity fr.rows
+  if !((elemIds fr).all fits32) then .error .overflow else
   if cs.all (fun c => (elemType dim c.2.length).isSome) then
     .ok (cs.map (fun c => (c.1, (elemType dim c.2.length).getD 0, c.2)))
-  else .error .exportErr
+  else .error .key
 
-/-- `add_geometry`.  Result: new `_dimension`, file after the call, error raised (if any). -/
-def addGeometry {V} [BEq V] (dim : Nat) (f : File V) (name : String) (fr : Frame V) : Nat × File V × Option Err :=
-  if (f.geoms.lookup name).isSome then (dim, f, some .key) else
+/-- `add_geometry`.  Result: file after the call, error raised (if any). -/
+def addGeometry {V} [Cell V] (f : File V) (name : String) (fr : Frame V) : File V × Option Err :=
+  if (f.geoms.lookup name).isSome then (f, some .key) else
   -- `_create_geometry_groups`: the (still empty) geometry group exists from here on
   let f1 : File V := { f with geoms := f.geoms ++ [(name, emptyGeom)] }
   -- the `except` branch: `del geometry_group[geometry_name]`
   let rollback : File V := { f1 with geoms := eraseKey name f1.geoms }
-  match buildPoints dim fr with
-  | (dim', .error _) => (dim', rollback, some .exportErr)
-  | (dim', .ok (ids, nc, coords)) =>
-    match buildElements dim' fr with
-    | .error _ => (dim', rollback, some .exportErr)
-    | .ok els => (dim', { f1 with geoms := setKey name ⟨ids, nc, coords, els, []⟩ f1.geoms }, none)
+  match buildPoints fr with
+  | .error _ => (rollback, some .exportErr)
+  | .ok (ids, nc, coords) =>
+    match buildElements (ownDim fr) fr with
+    | .error _ => (rollback, some .exportErr)
+    | .ok els => ({ f1 with geoms := setKey name ⟨ids, nc, coords, els, []⟩ f1.geoms }, none)
 
 /-- `vmap_structures.column_names`. -/
 def defaultCols : String → Option (List String × Nat)
@@ -169,19 +205,22 @@ def resolveLoc (var : String) : Option Nat → Option Nat
     | none => none
 
 /-- The two datasets of a variable group for a frame whose columns `idx` are exported. -/
-def buildVariable {V} (loc : Nat) (fr : Frame V) (idx : List Nat) : Variable V :=
+def buildVariable {V} [Cell V] (loc : Nat) (fr : Frame V) (idx : List Nat) : Variable V :=
   if loc = 2 then
-    let ids := sortU (fr.rows.map (·.nid))
-    ⟨2, idx.length, ids, ids.map (nodeValue fr.rows idx)⟩
+    ⟨2, idx.length, nodeIds fr, (nodeIds fr).map (nodeValue fr.rows idx)⟩
   else
-    ⟨loc, idx.length, sortU (fr.rows.map (·.eid)), (byElement fr.rows).map (selRow idx)⟩
+    ⟨loc, idx.length, elemIds fr, (byElement fr.rows).map (selRow idx)⟩
+
+/-- The identifiers a variable of location `loc` writes fit the format. -/
+def varIdsFit {V} (loc : Nat) (fr : Frame V) : Bool :=
+  if loc = 2 then (nodeIds fr).all fits32 else (elemIds fr).all fits32
 
 /-- The state group and the geometry group below it are created on demand (and stay). -/
 def ensureGroup {V} (f : File V) (state geom : String) : File V :=
   if f.groups.contains (state, geom) then f else { f with groups := f.groups ++ [(state, geom)] }
 
 /-- `add_variable` from the point where the groups exist. -/
-def addVariableCore {V} (f1 : File V) (state geom var : String) (fr : Frame V)
+def addVariableCore {V} [Cell V] (f1 : File V) (state geom var : String) (fr : Frame V)
     (cols : Option (List String)) (loc : Option Nat) : File V × Option Err :=
   if (f1.vars.lookup (state, geom, var)).isSome then (f1, some .key) else
   match resolveCols var cols with
@@ -193,13 +232,17 @@ def addVariableCore {V} (f1 : File V) (state geom var : String) (fr : Frame V)
       if l ≠ 2 ∧ l ≠ 6 then (f1, some .apiUse) else
       -- the variable group is created, filled, and deleted again if filling raises
       let f2 : File V := { f1 with vars := f1.vars ++ [((state, geom, var), (⟨l, names.length, [], []⟩ : Variable V))] }
+      let rollback : File V := { f2 with vars := eraseKey (state, geom, var) f2.vars }
+      if !(varIdsFit l fr) then (rollback, some .exportErr) else
       match colIdx fr.cols names with
-      | none => ({ f2 with vars := eraseKey (state, geom, var) f2.vars }, some .exportErr)
-      | some idx => ({ f2 with vars := setKey (state, geom, var) (buildVariable l fr idx) f2.vars }, none)
+      | none => (rollback, some .exportErr)
+      | some idx =>
+        if names.any (fun c => fr.objCols.contains c) then (rollback, some .exportErr)
+        else ({ f2 with vars := setKey (state, geom, var) (buildVariable l fr idx) f2.vars }, none)
 
 /-- `add_variable`.  `cols = none` / `loc = none`: the optional arguments are not given; `loc = some k` with
 `k ∉ {2, 6}` stands for a `location` that is not a `VariableLocations` member. -/
-def addVariable {V} (f : File V) (state geom var : String) (fr : Frame V)
+def addVariable {V} [Cell V] (f : File V) (state geom var : String) (fr : Frame V)
     (cols : Option (List String)) (loc : Option Nat) : File V × Option Err :=
   if (f.geoms.lookup geom).isNone then (f, some .key)
   else addVariableCore (ensureGroup f state geom) state geom var fr cols loc
@@ -212,6 +255,7 @@ def addSet {V} (f : File V) (kind : Nat) (geom : String) (ids : List Int) (fr : 
     (nameOk : Bool) (name : String) : File V × Option Err :=
   if !(ids.all (fun i => (idsOf kind fr).contains i)) then (f, some .key) else
   if !nameOk then (f, some .typeErr) else
+  if !(ids.all fits32) then (f, some .overflow) else
   match f.geoms.lookup geom with
   | none => (f, some .key)
   | some g => ({ f with geoms := setKey geom { g with sets := g.sets ++ [⟨kind, name, ids⟩] } f.geoms }, none)
@@ -268,6 +312,12 @@ def joinBlock {V} (labels : List String) (rows : MeshRows V) (newLabels : List S
   if newLabels.any (fun l => labels.contains l) then .error .value
   else .ok (labels ++ newLabels, rows.map (fun r => (r.1, r.2 ++ cells r.1)))
 
+/-- The state a `join_variable` call uses: its own argument, else the one remembered by the object. -/
+def pickState (st cur : Option String) : Option String :=
+  match st with
+  | some x => some x
+  | none => cur
+
 /-- One importer call.  Returns the session afterwards and the exception raised, if any. -/
 def impStep {V} (f : File V) (s : Session V) : ImpOp → Session V × Option Err
   | .makeMesh geom st =>
@@ -288,7 +338,7 @@ def impStep {V} (f : File V) (s : Session V) : ImpOp → Session V × Option Err
     match s.mesh with
     | none => (s, some .apiUse)
     | some (labels, rows) =>
-      match (match st with | some x => some x | none => s.state) with
+      match pickState st s.state with
       | none => (s, some .apiUse)
       | some state =>
         match f.geoms.lookup s.geometry with
